@@ -34,7 +34,9 @@ ASSUMPTIONS = [
     "annotations (every scalar kind x {singular, optional, repeated, map}, enums with / without prefix / NoDefault, wrapper and exposed "
     "oneofs, flattened objects, recursive and mutually recursive types, j5 Any and protobuf Any); j5s compiled by the real compiler is not "
     "used as a schema source (the compile cluster checks that its output reflects to the intended schema)",
-    "types that J5 cannot express (fixed32/64, Duration, Struct, repeated Any, a message flattened twice into one parent) are not generated",
+    "types that J5 cannot express (fixed32/64, Duration, Struct, repeated Any, a message flattened twice into one parent) are not generated "
+    "as targets of the correspondence streams; the Go-only stream codec.history (C06) decodes into such types too (the reflection rejects them: "
+    "every call returns an error) and then into their neighbours on the same codec",
     "protobuf Any can only be decoded by a codec built WithProtoToAny: C01 for messages containing a protobuf Any is evaluated in mode p",
     "url.Values iteration order is random in Go: multi-key query ops are restricted to order-independent key sets",
     "Go stack exhaustion and wall-clock behaviour are runtime properties: covered only by the Go-only codec.stress stream "
@@ -80,7 +82,9 @@ FUZZ = lambda q, t: stream("codec.fuzz", {"quick": q, "thorough": t, "search": q
     "grammar-aware mutations of valid documents (truncation, null in any position, duplicate keys, huge / odd numbers, odd scalar strings, "
     "wrong shapes, nesting to 1500, byte flips, oneof framing abuse, null elements, trailing data, invalid UTF-8, odd keys), raw inputs "
     "(empty, arbitrary bytes, JSON-ish characters, known nasty literals) against all target types incl. recursive ones; every 5th op a "
-    "url.Values (empty / dotted / unknown / upper-cased keys into every property kind, 0..3 values incl. JSON text); every 40th a `tok` "
+    "url.Values (empty / dotted / unknown / upper-cased keys into every property kind, 0..3 values incl. JSON text; every third of them "
+    "a key with index-like segments (0 1 00 +1 -1 -2^31 -2^63 1e3 0x1 .. 65536 10^6), empty segments or trailing dots after a property of "
+    "every kind — half of them after an array / map of objects / oneofs, followed by a property of the element type); every 40th a `tok` "
     "op (tokenizer differential); every 25th a number with an exponent beyond the decimal limit (4097..3*10^6, e / E, signed, bare / "
     "quoted) in a decimal or float member, array element, map value or query parameter. Inputs <= 4 KiB (thorough 64 KiB). Go oracle: "
     "no panic, time bound, decoded message size <= 1024 * input + 8 KiB (c06-amplification), and for accepted documents the "
@@ -90,8 +94,22 @@ FUZZ = lambda q, t: stream("codec.fuzz", {"quick": q, "thorough": t, "search": q
 STRESS = lambda q, t: stream("codec.stress", {"quick": q, "thorough": t, "search": q}, {"quick": 4, "thorough": 8, "search": 4},
     "Go only: recursive target types, nesting depth 10^3..2*10^4 (thorough 10^5) through object, array and oneof recursion, closed and "
     "unclosed, deep garbage inside an Any value, Any values nested 90..1600 (thorough 4600) deep in proto-expanding mode, arrays / strings / "
-    "maps up to 1 MiB (thorough 4 MiB), every 10th op a decimal / float exponent of 3*10^6..2^31-1 in every spelling; corpus "
+    "maps up to 1 MiB (thorough 4 MiB), every 10th op a decimal / float exponent of 3*10^6..2^31-1 in every spelling, every 10th a query "
+    "key with an index segment of 2*10^9..2^63-1 after an array / map of containers; corpus "
     "codec.stress.ops: 21 fixed exponent inputs (10^7 digits, 2^31-1 last); per-call bound 1.5 s + 5 us/byte, decoded message size "
     "<= 1024 * input + 8 KiB, "
-    "debug.SetMaxStack(256 MiB), 60 s watchdog.",
+    "debug.SetMaxStack(256 MiB), 60 s watchdog, live-heap watchdog (8 GiB during one call; 3 GiB in codec.fuzz / codec.history).",
     driver=None, flush=True, crash_signature="c06-crash", timeout_s=1500, gomemlimit="12GiB", no_search=True)
+
+
+# written by b-codec2 (round 4): several decode calls on ONE codec, target types the schema reflection rejects
+HISTORY = lambda q, t: stream("codec.history", {"quick": q, "thorough": t, "search": q}, {"quick": 4, "thorough": 8, "search": 4},
+    "Go only: a generated package hs<seed>.v1 of 2..5 message types that refer to each other (self references, cycles; singular / repeated / "
+    "map / oneof members; 1/6 J5 oneof wrappers by convention), 0..2 of them (seed%4==0: exactly the first of a mutually recursive pair) "
+    "with one member the J5 schema reflection rejects (fixed32/64, sfixed32/64, repeated fixed64, map with int32 keys, google.protobuf.Duration / "
+    "Struct, an enum without an UNSPECIFIED zero value) at a random position among the members; 2..7 decode calls (4/5 JSON documents entering the "
+    "references 1..3 deep with {} / null / absent below, 1/5 dotted query keys) on ONE fresh codec.NewCodec(), a rejected type first in 2/3 of the "
+    "histories. Go oracle per call: no panic (c06-panic:<site>), time bound (c06-slow), size bound (c06-amplification), process death "
+    "(c06-crash). Statistic only: calls whose ok/err differs from the same call on a fresh codec. Non-trivial = a call accepted on a codec "
+    "that had rejected a type before; distinct by op.",
+    driver=None, flush=True, crash_signature="c06-crash", timeout_s=1500, no_search=True)
